@@ -103,7 +103,11 @@ impl<C: CellType> Memory<C> {
         };
         let new_layout = Layout::array::<C>(new_size).unwrap();
         // Safety: Layout is never zero-sized.
+        #[cfg(hpbf_verif)]
+        crate::verif::IN_TAPE_GROWTH.store(true, std::sync::atomic::Ordering::SeqCst);
         let new_buffer = unsafe { alloc_zeroed(new_layout) as *mut C };
+        #[cfg(hpbf_verif)]
+        crate::verif::IN_TAPE_GROWTH.store(false, std::sync::atomic::Ordering::SeqCst);
         if new_buffer.is_null() {
             handle_alloc_error(new_layout);
         }
